@@ -71,7 +71,7 @@ PROPS = {
                 pending=['frame_lemma (compositionality of the machine)']),
     'C08': dict(obligations=lambda: P('SqProps.C08') + T('SqTie.LexRules', 'lexrules_tie'),
                 slices=['num'], monitors=['c08'],
-                pending=['div_correct (sticky-digit argument of __truediv__)']),
+                pending=['`fix` assembled with div_correct into one equation for the normal exponent range (the two halves — sticky rounding at any position, at least one digit rounded — are proved)']),
     'C09': dict(obligations=lambda: P('SqProps.C09') + SHAPE_OPS,
                 slices=['probe'], monitors=['c09'],
                 pending=['big-step corollary: the log of a strict node is the concatenation of its children\'s logs']),
